@@ -295,3 +295,22 @@ def judge(model, scen, out):
             if diff is None and ncompute != len(wit):
                 oracles.append({"oracle": "cache_execution_count", "computes_in_trace": ncompute, "witness": len(wit)})
     return {"diff": diff, "oracles": oracles, "info": info}
+
+
+_confirms = [0]
+
+
+def judge_confirmed(model, scen, out):
+    """judge(); a verdict that rests on a time limit (cache_hang) counts only when it happens again, alone, with three times
+    the limit (a loaded machine is slow); at most six such re-runs per check."""
+    j = judge(model, scen, out)
+    if any(x["oracle"] == "cache_hang" for x in j["oracles"]):
+        if _confirms[0] >= 6:
+            j["oracles"] = [x for x in j["oracles"] if x["oracle"] != "cache_hang"]
+            j["unconfirmed_hang_dropped"] = True
+            return j
+        _confirms[0] += 1
+        s2 = dict(scen, timeout=3 * scen.get("timeout", 60))
+        o2 = run_many([s2], jobs=1)[0]
+        return judge(model, s2, o2)
+    return j
